@@ -435,7 +435,7 @@ func c07SustainedAccrual(ev *vlib.Evidence, driver string, idx int) {
 
 func TestC07(t *testing.T) {
 	ev := vlib.NewEvidence("C07", "fault_enumeration",
-		"sequential accrue/withdraw histories on one wallet (fee in {none, constant, 1%}, minimum in {nil,0,5000,1e18}, balances around the minimum, optional deposit) with the settlement failing at attempt k for every k in 0..4 (0 = never); oracle per withdrawal: paid = balance - fee exactly once, nothing left to withdraw, refused/failed => nothing paid and balance unchanged, conservation paid+fees+remaining = deposit+accrued; concurrent: 2..8 racing withdrawals (+0..2 accruers) with the settle handler holding the window open, checked for paid+remaining <= owed and with porcupine against the sequential withdraw/accrue model; sustained: 3-6 goroutines crediting the wallet and its node without pause while it withdraws 100-200 times (no fee, no minimum): paid + remaining = credited exactly; non-trivial = at least one payment was made; distinct = distinct traces")
+		"sequential accrue/withdraw histories on one wallet (fee in {none, constant, 1%}, minimum in {nil,0,5000,1e18}, balances around the minimum, optional deposit) with the settlement failing at attempt k for every k in 0..4 (0 = never); oracle per withdrawal: paid = balance - fee exactly once, nothing left to withdraw, refused/failed => nothing paid and balance unchanged, conservation paid+fees+remaining = deposit+accrued; concurrent: 2..8 racing withdrawals (+0..2 accruers) with the settle handler holding the window open, checked for paid+remaining <= owed and with porcupine against the sequential withdraw/accrue model; sustained: 3-6 goroutines crediting the wallet and its node without pause while it withdraws 100-200 times (no fee, no minimum): paid + remaining = credited exactly; non-trivial = at least one payment was made; distinct = distinct traces; (faults) withdrawal by a wallet whose deposit is time-locked (unreadable)")
 	ev.Assume("the settle handler replaces the deposit with newBalance on success, as the contract does")
 	for _, driver := range vlib.Drivers() {
 		for failAt := 0; failAt <= 4; failAt++ {
